@@ -1,11 +1,13 @@
 /-
   Proofs/C05.lean — property C05: joins follow first-match relational semantics and never
-  lose rows.  Statements only; proofs cite Lemmas/Group.lean.
+  lose rows.  Statements only; proofs cite Lemmas/Group.lean, Lemmas/JoinFirst.lean,
+  Lemmas/JoinFull.lean, Lemmas/JoinSpec.lean.
 -/
 import Model.Group
 import Lemmas.Group
 import Lemmas.JoinFirst
 import Lemmas.JoinFull
+import Lemmas.JoinSpec
 
 namespace DI.C05
 
@@ -54,5 +56,80 @@ theorem full_join_never_loses_rows (n : Nat) (lk : List (List Cell)) (m : Nat) (
 
 example : leftJoinPairs 3 [[some (.i 1), none, some (.i 2)]] 3 [[some (.i 2), none, some (.i 2)]]
     = [(some 0, none), (some 1, none), (some 2, some 0)] := by decide
+
+/-! ### relational content of full_join / semi_join / anti_join (Lemmas/JoinSpec.lean) -/
+
+/-- **full_join never pairs rows with unequal keys**: whenever the result contains a row merged from
+    left row `i` and right row `j` — from the left join `ab` or from the appended reverse join `ba` —
+    both ids are in range, the two key tuples are equal, and neither side has a missing key value.
+    No hypothesis on the shape of the key columns is needed. -/
+theorem full_join_never_pairs_unequal_keys (n : Nat) (lk : List (List Cell)) (m : Nat) (rk : List (List Cell))
+    (i j : Nat) (h : (some i, some j) ∈ fullJoinPairs n lk m rk) :
+    i < n ∧ j < m ∧ rowKey rk j = rowKey lk i ∧ noNa lk i ∧ noNa rk j :=
+  fullJoin_keys_agree n lk m rk i j h
+
+/-- `rowKey lk i` is the key tuple `(rowsOf n lk)[i]` the other C05 theorems talk about. -/
+theorem rowKey_is_row (n : Nat) (lk : List (List Cell)) (i : Nat) (hi : i < n) :
+    (rowsOf n lk)[i]! = rowKey lk i := rowsOf_get_rowKey n lk i hi
+
+/-- **left rows once, in order**: the left-join rows `(i, match of i)`, `i = 0 … n-1`, occur in the
+    result of full_join in this order … -/
+theorem full_join_left_rows_in_order (n : Nat) (lk : List (List Cell)) (m : Nat) (rk : List (List Cell)) :
+    (leftJoinPairs n lk m rk).Sublist (fullJoinPairs n lk m rk) :=
+  leftJoinPairs_sublist_full n lk m rk
+
+/-- … **with exact multiplicity**: the rows of full_join that are left-join rows are the left join
+    itself (each exactly once), and the other rows are exactly the appended unmatched right rows. Any
+    further occurrence of a left row `i` therefore stems from a right row the left join did not use. -/
+theorem full_join_left_part_exact (n : Nat) (lk : List (List Cell)) (m : Nat) (rk : List (List Cell)) :
+    (fullJoinPairs n lk m rk).filter (fun p => (leftJoinPairs n lk m rk).contains p) = leftJoinPairs n lk m rk ∧
+    ((fullJoinPairs n lk m rk).filter (fun p => !(leftJoinPairs n lk m rk).contains p)).Perm
+      (fullJoinExtra n lk m rk) :=
+  ⟨fullJoinPairs_filter_left n lk m rk, fullJoinPairs_filter_extra n lk m rk⟩
+
+/-- `leOptNat` is `≤` on row ids with the missing id last. -/
+theorem leOptNat_spec (a b : Option Nat) :
+    leOptNat a b = true ↔ b = none ∨ ∃ x y, a = some x ∧ b = some y ∧ x ≤ y := leOptNat_iff a b
+
+/-- **full_join is sorted**: the result is ordered by left row id, ties by right row id, missing ids
+    last (in both branches: the plain left join and the sorted `rbind`). -/
+theorem full_join_sorted (n : Nat) (lk : List (List Cell)) (m : Nat) (rk : List (List Cell)) :
+    (fullJoinPairs n lk m rk).Pairwise
+      (fun p q => leOptNat p.1 q.1 = true ∧ (p.1 = q.1 → leOptNat p.2 q.2 = true)) :=
+  (fullJoinPairs_sorted n lk m rk).imp (fun h => (fullJoinLe_iff _ _).mp h)
+
+/-- **semi_join = the matched left rows**: the left rows whose join source is not "none", i.e. exactly
+    the rows `i` for which some right row without missing key value has the key tuple of `i`. -/
+theorem semi_is_matched (n : Nat) (lk : List (List Cell)) (m : Nat) (rk : List (List Cell)) :
+    semiJoinIdx n lk m rk = (List.range n).filter (fun i => ((joinSrc n lk m rk)[i]!).isSome) ∧
+    ∀ i, i ∈ semiJoinIdx n lk m rk ↔ i < n ∧ ∃ j, j < m ∧ noNa rk j ∧ rowKey rk j = rowKey lk i :=
+  ⟨semiJoinIdx_eq n lk m rk, mem_semiJoinIdx n lk m rk⟩
+
+/-- **anti_join = the unmatched left rows**: exactly the rows `i` such that no right row without
+    missing key value has the key tuple of `i`. -/
+theorem anti_is_unmatched (n : Nat) (lk : List (List Cell)) (m : Nat) (rk : List (List Cell)) :
+    antiJoinIdx n lk m rk = (List.range n).filter (fun i => ((joinSrc n lk m rk)[i]!).isNone) ∧
+    ∀ i, i ∈ antiJoinIdx n lk m rk ↔ i < n ∧ ∀ j, j < m → noNa rk j → rowKey rk j ≠ rowKey lk i :=
+  ⟨antiJoinIdx_eq n lk m rk, mem_antiJoinIdx n lk m rk⟩
+
+/- non-vacuity: left keys [1, 2], right keys [2, 3, 2]: left row 1 is merged with right row 0, the
+   duplicate right row 2 is appended with its reverse match (left row 1), right row 1 with none. -/
+example : fullJoinPairs 2 [[some (.i 1), some (.i 2)]] 3 [[some (.i 2), some (.i 3), some (.i 2)]]
+    = [(some 0, none), (some 1, some 0), (some 1, some 2), (none, some 1)] := by
+  have hab : leftJoinPairs 2 [[some (.i 1), some (.i 2)]] 3 [[some (.i 2), some (.i 3), some (.i 2)]]
+      = [(some 0, none), (some 1, some 0)] := by decide
+  have hex : fullJoinExtra 2 [[some (.i 1), some (.i 2)]] 3 [[some (.i 2), some (.i 3), some (.i 2)]]
+      = [(none, some 1), (some 1, some 2)] := by decide
+  have hr : (joinRest 2 [[some (.i 1), some (.i 2)]] 3 [[some (.i 2), some (.i 3), some (.i 2)]]).isEmpty
+      = false := by decide
+  rw [fullJoinPairs_eq, hab, hex, hr]
+  simp [argsort, sortPairs, List.mergeSort, List.zipIdx, fullJoinLe, leOptNat, gather]
+
+/- the branch without unmatched right rows (no sort): plain left join. -/
+example : fullJoinPairs 2 [[some (.i 1), some (.i 2)]] 1 [[some (.i 2)]]
+    = [(some 0, none), (some 1, some 0)] := by decide
+
+example : semiJoinIdx 3 [[some (.i 1), none, some (.i 2)]] 3 [[some (.i 2), none, some (.i 2)]] = [2] ∧
+    antiJoinIdx 3 [[some (.i 1), none, some (.i 2)]] 3 [[some (.i 2), none, some (.i 2)]] = [0, 1] := by decide
 
 end DI.C05
